@@ -21,6 +21,6 @@ exp=json.load(open(sys.argv[2]))
 bad=[t for t in exp["stable_pass"] if res.get(t)!="pass"]
 newfail=[t for t,a in res.items() if a=="fail" and t not in exp["always_fail"] and t not in exp["stable_pass"]]
 print("baseline: %d/%d stable tests pass; unexpected failures: %d"%(len(exp["stable_pass"])-len(bad),len(exp["stable_pass"]),len(newfail)))
-for t in bad+newfail: print("  NOT PASSING:",t,res.get(t))
+for t in (bad+newfail)[:8]: print("  NOT PASSING:",t,res.get(t))
 sys.exit(1 if bad or newfail else 0)
 PY
